@@ -28,8 +28,11 @@ def make_classes():
             self.sent.append(bytes(data))
 
         def feed(self, chunk):
+            # one read: the work is proportional to the bytes buffered; a busy loop inside process_io_buffer surfaces as NeverReturned
+            from vlib.stepbound import cpu_bound
             self._iobuf.write(chunk)
-            self.process_io_buffer()
+            with cpu_bound(20, "process_io_buffer() after a read of %d bytes" % len(chunk)):
+                self.process_io_buffer()
 
         def close(self):
             with self.lock:
